@@ -229,6 +229,28 @@ Section Get.
     RawGetInt mai t i = RawGet mai t (KInt i) /\ RawGetString t s = RawGet mai t (KStr s).
   Proof. split; [apply RawGetInt_RawGet | apply RawGetString_RawGet]. Qed.
 
+  (* ipairs visits i, i+1, ... with their values up to the first nil *)
+  Lemma ipairs_prefix_lemma t : forall fuel i,
+    let L := ipairs_from mai t i fuel in
+    (forall j, 0 <= j < len L -> nthv L j = RawGet mai t (KInt (i + j)) /\ nthv L j <> VNil) /\
+    ((length L < fuel)%nat -> RawGet mai t (KInt (i + len L)) = VNil).
+  Proof.
+    induction fuel as [|f IH]; intros i L; subst L.
+    - simpl. split; [intros j Hj; unfold len in Hj; simpl in Hj; lia|lia].
+    - cbn [ipairs_from]. rewrite RawGetInt_RawGet.
+      destruct (is_nil (RawGet mai t (KInt i))) eqn:E.
+      + split; [intros j Hj; unfold len in Hj; simpl in Hj; lia|].
+        intros _. rewrite len_nil, Z.add_0_r. now apply is_nil_true.
+      + destruct (IH (i + 1)) as [A B]. split.
+        * intros j Hj. rewrite len_cons in Hj. destruct (Z.eq_dec j 0) as [->|Nz].
+          -- rewrite nthv_cons_0, Z.add_0_r. split; [reflexivity|now apply is_nil_false].
+          -- rewrite nthv_cons_S by lia. destruct (A (j - 1)) as [A1 A2]; [lia|].
+             split; [|assumption]. rewrite A1. do 2 f_equal. lia.
+        * intros Hl. simpl in Hl. rewrite len_cons.
+          replace (i + (len (ipairs_from mai t (i + 1) f) + 1)) with (i + 1 + len (ipairs_from mai t (i + 1) f)) by lia.
+          apply B. lia.
+  Qed.
+
   Lemma rawset_guard_lemma t k v : k = LKNil \/ k = LKNaN -> LRawSet mai t k v = None.
   Proof. intros [->| ->]; reflexivity. Qed.
 End Get.
